@@ -8,6 +8,7 @@ cd /verif
 if [ -n "$(git -C /repo status --porcelain)" ]; then echo "/repo is not clean"; exit 2; fi
 git -C /repo apply "$D/patch.diff" || { echo "patch does not apply"; exit 2; }
 trap 'git -C /repo checkout -- . ; git -C /repo clean -fdq' EXIT
+export VERIF_EVIDENCE_DIR=/tmp/verif.seed-evidence   # the committed evidence files describe the unchanged tree only
 for id in "$@"; do
   ./check "$id" ${SEED_TIER:-quick} > "$D/run.$id.log" 2>&1
   rc=$?
